@@ -1,8 +1,20 @@
-"""C26 — bounded run-time contract check (see checks/C26_bounded.py for the contract and scope); proof kernel: see DESIGN §5 C26."""
-from vlib.thin import run_bounded_only
+"""C26 — the pool recovers from any fault without leaking or reusing dead connections: the _ConnectionRecord layer under proof,
+fault enumeration on a fake DBAPI as the bounded complement."""
+import importlib
+import contracts.pool_record  # noqa: F401
+from pyvc.contract import FUNCS
+from vlib.proof import run_proofs
 
-LEVEL = "fault_enumeration"
+LEVEL = "proof"
+KEYS = [k for k, c in FUNCS.items() if "C26" in c.props and c.proof and not c.abstract]
 
 
 def run(run, tier, seed, args):
-    run_bounded_only(run, "C26", tier, seed)
+    run_proofs(run, KEYS, tier, update_baseline=args.update_baseline, source_root=args.source_root)
+    if not args.source_root:
+        importlib.import_module("checks.C26_bounded").bounded(run, tier, seed)
+    run.assumptions += [
+        "assumed externals: pool._invoke_creator returns a new open DBAPI connection or raises with nothing opened; pool._close_connection closes (close attempted counts as closed, exceptions swallowed there); pool._return_conn is counted by a ghost counter",
+        "event hooks (dispatch.*) and logging do not touch the ghost state and do not raise; time.time() is an arbitrary integer (no monotonicity is needed by the clauses)",
+        "under proof: __close, __connect, close, invalidate, get_connection, checkin, _is_hard_or_soft_invalidated; checkout / _checkin_failed / _finalize_fairy / _ConnectionFairy._checkout (retry loop, pre-ping) and the pool classes are in the bounded complement",
+    ]
